@@ -709,6 +709,7 @@ type histOpts struct {
 	selectEvery        int
 	cap                int
 	pFail              int // percent of statements that are single-row INSERTs refused at their first row
+	preTables          int // tables created up front (7 user tables split the page table's root leaf)
 }
 
 func runHistory(cfg *config, id int, r *hx.Rng, o histOpts) {
@@ -724,6 +725,9 @@ func runHistory(cfg *config, id int, r *hx.Rng, o histOpts) {
 		}
 	}
 	newTable()
+	for k := 1; k < o.preTables; k++ {
+		newTable()
+	}
 	splitsSeen := false
 	for s := 0; s < o.stmts; s++ {
 		if len(tables) == 0 {
@@ -1060,6 +1064,11 @@ func runDB(cfg *config) {
 			id++
 			rr := r.Fork()
 			o := histOpts{stmts: rr.Range(5, 40), maxTables: 4, maxCols: 6, maxRows: 10, bigValues: rr.Bool(), pFlush: []int{0, 15, 40, 100}[rr.Intn(4)], pReopen: 3, pCrash: []int{10, 25, 50}[rr.Intn(3)], dumpEvery: 9, selectEvery: 4, pFail: []int{0, 8, 20}[rr.Intn(3)]}
+			if i%4 == 3 {
+				// many tables: the page table's own root has moved (its row about itself is stale from then
+				// on), and tables keep moving their roots in a catalog of two levels
+				o.preTables, o.maxTables, o.maxCols, o.selectEvery = rr.Range(7, 11), 12, 3, 9
+			}
 			runHistory(cfg, id, rr, o)
 		}
 	}
